@@ -503,6 +503,13 @@ func NewSorted
   ensures[perm]   (forall i :: 0 <= i && i < len(values) ==> 0 <= sortperm[i] && sortperm[i] < len(values) && result.slice[i] == values[sortperm[i]]) && (forall i, j :: 0 <= i && i < j && j < len(values) ==> sortperm[i] != sortperm[j])
   ensures[fresh]  fresh(result.slice)
 
+func NewSortedOrdered
+  property C07
+  ensures[inv]    forall i, j :: 0 <= i && i < j && j < len(result.slice) ==> !(result.slice[j] < result.slice[i])
+  ensures[len]    len(result.slice) == len(values)
+  ensures[perm]   (forall i :: 0 <= i && i < len(values) ==> 0 <= sortperm[i] && sortperm[i] < len(values) && result.slice[i] == values[sortperm[i]]) && (forall i, j :: 0 <= i && i < j && j < len(values) ==> sortperm[i] != sortperm[j])
+  ensures[fresh]  fresh(result.slice)
+
 // ---------------------------------------------------------------- C15
 // Adapters: proved from the code. `opt sortdata` names the memory Swap permutes (used by the assumed sort contract).
 
